@@ -54,7 +54,8 @@ mutual
 def tyReps (cs : List Int) : Ty → List Val
   | .bool => [.bool false, .bool true]
   | .int k => (intReps k cs).map .int
-  | .array t n => ((tyReps cs t).take 1).map fun v => .array (ValList.replicate n v)
+  /- arrays can only be matched by identifier patterns: one representative is enough -/
+  | .array t n => [.array (ValList.replicate n (((tyReps cs t).head?).getD (.bool false)))]
   | .tuple ts => (product (tyListReps cs ts)).map fun vs => .tuple (ValList.ofList vs)
   | .struct name fs =>
     (product (fieldsReps cs fs)).map fun vs => .struct name (FieldVals.ofList ((fieldNames fs).zip vs))
@@ -68,8 +69,7 @@ def fieldsReps (cs : List Int) : Fields → List (List Val)
 def variantsReps (cs : List Int) (ename : String) : Variants → List Val
   | .nil => []
   | .cons v isUnit fts r =>
-    (if isUnit then [Val.enum ename v true .nil]
-     else (product (tyListReps cs fts)).map fun vs => Val.enum ename v false (ValList.ofList vs))
+    ((product (tyListReps cs fts)).map fun vs => Val.enum ename v isUnit (ValList.ofList vs))
     ++ variantsReps cs ename r
 end
 
